@@ -41,13 +41,16 @@ CHECKS["C11"] = dict(
 
 CHECKS["C18"] = dict(
     category="other",
-    technique="table reading from MIR (const tables, match tables, dispatch switch) against a Type 2 oracle; call-graph SCC depth-guard rule; sibling agreement of visitor impls",
+    technique="table reading from MIR (const tables, match tables, dispatch switch) against a Type 2 oracle; call-graph SCC depth-guard rule; sibling agreement of visitor impls; forward path walk of each operator handler with comparison of linear forms against the specification's path construction",
     text=("Static decision of necessary structural clauses of Type 2 conformance: opcode constants, the three VisitOp tables "
           "(mutual inverses, spec mnemonics), dispatch exhaustiveness incl. the escape switch and the try_into().unwrap() domain, "
           "subroutine bias step function at all breakpoints, nesting/stack limits, bounded interpreter recursion on every cycle, and "
           "visitor implementations without catch-all arms; blend takes its ItemVariationData index from the charstring's vsindex, else the "
           "Private DICT's, and pairs region scalars and deltas position by position (no skip/step adaptor on either side of the zip); the hint mask is read with ceil(stems_len/8) bytes after the stems still on "
-          "the stack were counted, on every path; CFF/CFF2 header layouts; an operand stack's limit never exceeds its array. Path arithmetic is not decided; operand-stack depth only through the audited indexing/arithmetic sites of C01."),
+          "the stack were counted, on every path; CFF/CFF2 header layouts; an operand stack's limit never exceeds its array; the 17 path operator handlers "
+          "(moveto, lineto, curveto families and the four flex operators) issue the drawing calls and leave the current point that the Type 2 specification gives, as linear "
+          "forms in the current point and the operands, per segment of the handler (T18-PATH). Operand-stack depth is decided only through the audited indexing/arithmetic sites of C01; "
+          "contour closing, seac composition and the blend arithmetic itself are not decided."),
     design_ref="DESIGN.md section 6, C18",
 )
 
@@ -79,12 +82,13 @@ CHECKS["C12"] = dict(
 
 CHECKS["C01"] = dict(
     category="other",
-    technique="call-graph SCC depth-guard rule over the per-instance call graph; MIR dominance/provenance rules for every documented panic site, every element-indexing site (BoundsCheck / Index with usize) and every overflow-checked integer operation (MIR Overflow asserts) with interval arithmetic over operand provenance, SSA-versioned guard matching and independently audited ledgers; origin classification of allocation sizes; guarded-divisor rule; loop progress witnesses",
+    technique="call-graph SCC depth-guard rule over the per-instance call graph; MIR dominance/provenance rules for every documented panic site, every element-indexing site (BoundsCheck / Index with usize) and every overflow-checked integer operation (MIR Overflow asserts, and the std operator impls and integer helpers that inherit the crate's overflow checks) with interval arithmetic over operand provenance, SSA-versioned guard matching and independently audited ledgers; origin classification of allocation sizes; guarded-divisor rule; loop progress witnesses",
     text=("Static decision of seven structural clauses of C01 over the whole crate: bounded recursion on every call-graph cycle; explicit panic "
           "discipline (every unwrap/expect/panic!/assert!/unreachable!/range slice/std argument-panic site); element indexing (constant or "
           "type-bounded index, dominating i < x.len() on the same receiver and value); overflow-checked arithmetic (every subtraction, and "
           "add/mul/neg/shift/div narrower than 64 bits: interval arithmetic, dominating comparison, non-emptiness, write-counter difference); "
-          "allocation sizes bounded by the input; guarded division; loop progress. Each site is discharged by its rule, audited with a written "
+          "allocation sizes bounded by the input; guarded division; loop progress. Arithmetic that is a call in MIR is a site too: std operator impls on integer "
+          "references (`&u32 * u32`), abs / pow / next_power_of_two, integer sum / product, and divisions by a reference or through div_euclid / div_ceil. Each site is discharged by its rule, audited with a written "
           "reason from an independent review, or a violation; a new site in an audited function exceeds the key's count. Add/mul overflow in "
           "64-bit types, allocation failure, running time of terminating loops and decompression size are not decided."),
     design_ref="DESIGN.md sections 6 (C01) and 11.2",
@@ -235,7 +239,8 @@ CHECKS["C05"] = dict(
           "specification's bits; a ValueRecord is consumed in the specification's field order with each value landing in the Adjust field of the "
           "same meaning; both dispatchers list every PosLookup kind; nested lookups are applied at the position found by the flag-aware iterator; the base of a nested MarkToBase/MarkToLigature is "
           "found ignoring marks; cursive adjustment precedes mark positioning; the lookup indices of a feature are sorted before they are "
-          "applied; mark-skipping modes only reject marks; layout record and kern class table readers follow the specification's item order."),
+          "applied; mark-skipping modes only reject marks; layout record and kern class table readers follow the specification's item order; a ClassDef class value "
+          "is never tested against a constant (class 0 is a class)."),
     design_ref="DESIGN.md section 11 (C05 was listed as not applicable in section 7; the table clauses were added later)",
 )
 
